@@ -265,7 +265,8 @@ def gen_spawn(rng):
             "env": env, "copy_env": copy_env, "copy_path": copy_path, "environ": environ,
             "use_sockets": rng.random() < 0.5, "np": np_, "used": used, "sockets": sockets,
             "pipe_out": rng.random() < 0.5, "pipe_err": rng.random() < 0.5,
-            "executable": rng.choice([None, None, "/bin/true"]), "exp_wid": wid}
+            "executable": rng.choice([None, None, "/bin/true"]), "exp_wid": wid,
+            "neighbours": rng.choice([0, 1, 2, 2])}
 
 
 def gen_gnu(rng):
@@ -491,12 +492,25 @@ class _Patched(object):
         return False
 
 
+def _neighbour(i):
+    """another watcher of the same daemon with copy_env and its own env: must not leak into anybody else"""
+    import circus.watcher as cw
+    return cw.Watcher("n13_%d" % i, "x", numprocesses=1, working_dir="/tmp", copy_env=True,
+                      env={"ZZ_NEIGHBOUR_%d" % i: "leak"}, loop=object())
+
+
 def _impl_spawn(case):
-    with _Patched(case["environ"]):
+    with _Patched(case["environ"]) as ctx:
+        nb = case.get("neighbours", 0)
         try:
+            if nb >= 1:
+                _neighbour(1)                      # built before the watcher under test
             w = _mk_watcher(case)
+            if nb >= 2:
+                _neighbour(2)                      # … and one built after it
         except ValueError as e:
             return {"result": "E:copy_path" if "copy_path" in str(e) else "valueerror:%s" % e}
+        intact = dict(ctx.cw.os.environ) == dict(case["environ"]) or case.get("copy_path")
         for i, u in enumerate(case["used"]):
             w.processes[9000 + i] = types.SimpleNamespace(wid=u, pid=9000 + i)
         before = set(w.processes)
@@ -512,7 +526,7 @@ def _impl_spawn(case):
                 "shell": kw.get("shell"), "env": sorted((kw.get("env") or {}).items()) if kw.get("env") is not None else None,
                 "close_fds": kw.get("close_fds"), "executable": kw.get("executable"),
                 "pipe_out": "stdout" in kw, "pipe_err": "stderr" in kw, "popen_calls": len(_Recorder.calls),
-                "kw_names": sorted(kw)}
+                "kw_names": sorted(kw), "environ_intact": bool(intact)}
 
 
 def _impl_hist(case):
@@ -826,6 +840,8 @@ def oracle(case, obs):
                 fails.append(_fail("cwd-differs", "cwd %r, configured %r" % (obs["cwd"], case["cwd"])))
             if obs["shell"] != case["shell"]:
                 fails.append(_fail("shell-flag-differs", "shell=%r, configured %r" % (obs["shell"], case["shell"])))
+            if obs.get("environ_intact") is False:
+                fails.append(_fail("daemon-environ-modified", "building the watchers changed the daemon's own os.environ"))
             env = dict(obs["env"] or [])
             conf = case["env"] or {}
             if not case["copy_env"]:
